@@ -17,7 +17,7 @@
    run in the environment, so re-entrant erase/update/wait of self and others is inside the
    model. *)
 From Coq Require Import ZArith List Bool Arith.
-From LTV Require Import Params_gen.
+From LTV.C19 Require Import ParamsGen.
 Import ListNotations.
 Open Scope Z_scope.
 
